@@ -126,6 +126,28 @@ var c01Lens = []int64{0, 1, 124, 125, 126, 127, 255, 256, 65534, 65535, 65536, 6
 
 func genC01(tier string, r *rng) {
 	keys := [][4]byte{{0, 0, 0, 0}, {1, 2, 3, 4}, {0xff, 0x80, 0x7f, 0x0a}}
+	// whole-frame reads through the streaming reader: header + exactly Length payload bytes, the frame being the
+	// LAST thing on a transport that hands over its final bytes together with io.EOF (and, for comparison, one
+	// that reports io.EOF on the next call) - every length form, masked and not, several chunkings
+	for _, n := range []int{0, 1, 5, 125, 126, 300, 65535, 65536} {
+		if tier == "quick" && n > 300 && n != 65536 {
+			continue
+		}
+		for _, masked := range []bool{false, true} {
+			st := 2
+			if masked {
+				st = 1
+			}
+			one := frameBytes(true, 0, ws.OpBinary, masked, r.bytes(n))
+			two := append(frameBytes(true, 0, ws.OpBinary, masked, r.bytes(3)), one...)
+			for _, fin := range []string{"Ed", "E"} {
+				for _, k := range []int{0, 1, 7, 4096} {
+					run(fmt.Sprintf("rdr %d - %s %d %s nf ra st", st, hx(one), k, fin))
+					run(fmt.Sprintf("rdr %d - %s %d %s nf ra st nf ra st", st, hx(two), k, fin))
+				}
+			}
+		}
+	}
 	var lattice []ws.Header
 	// Bounded-exhaustive lattice: Fin x Rsv x OpCode x Masked x length class x key.
 	for fin := 0; fin < 2; fin++ {
